@@ -169,6 +169,21 @@ fn inject(rng: &mut Rng, p: &Project, tree: &mut BTreeMap<String, String>, kind:
             tree.insert(f.clone(), t);
             Some(Injected { file: f, kind: kind.into(), stage: 3 })
         }
+        "schema_json_torn" => {
+            // the introspection file of the project cut short (a torn write / interrupted download)
+            if !p.introspection() {
+                return None;
+            }
+            let f = schema_files[0].clone();
+            let t = &tree[&f];
+            let mut k = t.len() / 2 + rng.below(t.len() / 2);
+            while !t.is_char_boundary(k) {
+                k -= 1;
+            }
+            let t2 = t[..k].to_string();
+            tree.insert(f.clone(), t2);
+            Some(Injected { file: f, kind: kind.into(), stage: 0 })
+        }
         "op_missing_brace" | "schema_missing_brace" => {
             let files = if kind == "op_missing_brace" { &op_files } else { &schema_files };
             let mut cands: Vec<&String> = files.iter().filter(|f| tree[*f].contains('}')).collect();
@@ -198,6 +213,7 @@ const VIOLATION_KINDS: &[&str] = &[
     "missing_import_name",
     "op_missing_brace",
     "schema_missing_brace",
+    "schema_json_torn",
 ];
 
 // ------------------------------------------------------------------ generator
@@ -219,6 +235,16 @@ pub fn gen_scenario(run_seed: u64, variant: &str, tier: Tier) -> E2Scenario {
         max_files: if variant == "c17" { 6 } else { 5 },
         closed_imports: true,
         cover_fragments: variant == "c08",
+        // a share of the projects describe their schema by an introspection result (.json)
+        introspection_pct: match variant {
+            "c18" => 12,
+            "c18f" => 10,
+            "c17" => 15,
+            "c08" => 20,
+            "arte" => 10,
+            "c14" => 8,
+            _ => 0,
+        },
     };
     let project = project::gen_project(&mut rp, &opts);
     let mut tree: BTreeMap<String, String> = project.files().into_iter().collect();
@@ -1094,7 +1120,7 @@ fn drive_c17(sc: &E2Scenario, rep: &mut RunReport) {
         // 4. in-process = CLI (E4): the same pipeline through the library API, on a thread
         //    with another hash seed, must produce the text of every declaration file
         let p = &sc.project;
-        if p.gen_str("schemaModuleSpecifier").is_some() && p.config.plugins.is_empty() {
+        if p.gen_str("schemaModuleSpecifier").is_some() && p.config.plugins.is_empty() && !p.introspection() {
             let texts: BTreeMap<String, String> = sc.tree.iter().cloned().collect();
             let schema_in = sc.schema_inputs();
             let op_in = sc.op_inputs();
